@@ -170,3 +170,15 @@ Proof.
     destruct (IH (mkM t1 (ins s ++ [(next s, a)]) (S (next s))) s' E) as (A & B & D). split; [|split]; auto.
     + rewrite B. simpl. rewrite map_app. simpl. rewrite <- app_assoc. auto.
 Qed.
+
+(* re-feeding what a passing final check would serialise reproduces it: children in schema order are a word of the language
+   (C01_machine), and a word of the language is accepted in order and kept in order (C02_seq_gen) *)
+Theorem refeed_stable t ops : wf_t t = true -> NoDup (alpha_t t) -> verdict_ok (mrun t ops) = true ->
+  let w := names (ordered (tree (mrun t ops))) in
+  names (ordered (tree (mrun t (map MAdd w)))) = w /\ verdict_ok (mrun t (map MAdd w)) = true /\ Forall (fun o => o = MOk) (mouts (minit t) (map MAdd w)).
+Proof.
+  intros W ND V w. pose proof (C01_machine t ops V) as L. fold w in L.
+  destruct (C02_seq_gen t W ND w 0 L) as (s' & E & R & N).
+  destruct (mrun_adds w (minit t) s' E) as (A & B & D). unfold mrun. rewrite A. split; [|split]; auto.
+  unfold verdict_ok. fold (mrun t (map MAdd w)). unfold mrun. rewrite A, R. reflexivity.
+Qed.
